@@ -41,7 +41,8 @@ def mode_env(mode, hashseed="0", numba_threads=None):
         env.pop("NUMBA_DISABLE_JIT", None)
         env["NUMBA_NUM_THREADS"] = str(numba_threads or 16)
         env["NUMBA_THREADING_LAYER"] = "omp"
-        env["OMP_NUM_THREADS"] = str(numba_threads or 16)
+        # OMP_NUM_THREADS stays 1 (scikit-learn's k-means reductions depend on it); numba's omp
+        # layer requests its thread count explicitly and still runs NUMBA_NUM_THREADS threads (measured)
     env["PYTHONPATH"] = VERIF_ROOT + os.pathsep + env.get("PYTHONPATH", "")
     return env
 
